@@ -207,6 +207,31 @@ pub fn fd_info(fd: i32, world_prefix: &str) -> Option<FdInfo> {
     })
 }
 
+// ---------------------------------------------------------------- world directories
+
+/// Remove everything inside `dir`; sub-directories named in `keep` (with the default mode) are
+/// emptied instead of removed. Directory removal is by far the most expensive operation on the
+/// file system under /tmp, so the lane skeleton is reused from case to case.
+pub fn empty_dir(dir: &Path, keep: &[&str]) {
+    use std::os::unix::fs::PermissionsExt;
+    let Ok(rd) = std::fs::read_dir(dir) else { return };
+    for ent in rd.flatten() {
+        let p = ent.path();
+        let Ok(md) = std::fs::symlink_metadata(&p) else { continue };
+        if md.file_type().is_dir() {
+            let name = ent.file_name();
+            let kept = keep.iter().any(|k| name.as_os_str().as_bytes() == k.as_bytes()) && md.permissions().mode() & 0o7777 == 0o755;
+            if kept {
+                empty_dir(&p, &[]);
+            } else {
+                let _ = std::fs::remove_dir_all(&p);
+            }
+        } else {
+            let _ = std::fs::remove_file(&p);
+        }
+    }
+}
+
 // ---------------------------------------------------------------- tree snapshot
 
 #[derive(Debug, Clone, PartialEq, Eq)]
